@@ -1227,6 +1227,8 @@ def generate(prop, verif_seed, idx, tier="quick", cls=None):
     sseed = derive(verif_seed, prop, idx)
     g = stream(sseed, "gen")
     knobs = {"bufsize": g.choice([0, 16, 512, 8192, 8192])}
+    if g.random() < 0.1:
+        knobs["loglevel"] = "INFO"
     if prop == "C16":
         if cls is None:
             cls = g.choices(["plain", "extended", "facts", "interrupt", "persist"], weights=[28, 20, 27, 15, 10])[0]
